@@ -18,7 +18,8 @@ Correspondence (model vs implementation, pure functions, compared directly):
   corr:C17:ALIAS    type handed on by `type_alias_structure_factory` == model `aliasResolve`
   corr:C17:MANGLE   `__name__` of the generated structure hook     == model `mangle`
 Recorded findings F27-F29 are recognised by the *shape of the input* (predicates below); their Lean negative witnesses
-are replayed on the real code in every run.
+are replayed on the real code in every run.  (F30 — string annotations of generic attrs classes — and F33 —
+unstructuring ignoring closed bindings of the base — were found by this check and are repaired in /repo.)
 """
 from __future__ import annotations
 
@@ -317,9 +318,35 @@ class World:
             lines.append(deco + head + "\n" + ("\n".join(body) if body else "    pass") + "\n")
         self.source = "\n".join(lines)
         self.ns = {}
-        exec(compile(self.source, "<c17 world%s>" % sfx, "exec"), self.ns)
+        exec(compile(self.source, "<c17 world%s>" % sfx, "exec", flags=0, dont_inherit=True), self.ns)
         self.cls = self.ns[self.names[levels[0]["name"]]]
         self.copies = {}
+        self.normalised = self._normalise()
+
+    def _normalise(self):
+        """replace every annotation of the description by the canonical form of what `typing` actually built
+        (`In[T] | None` is a typing.Optional, `Union[int, int]` is `int`, `typing.List` has origin `list`, …)"""
+        import copy
+        spec = copy.deepcopy(self.spec)
+        changed = False
+        for lv in spec["levels"]:
+            cl = self.ns[self.names[lv["name"]]]
+            annots = cl.__dict__.get("__annotations__", {})
+            own = []
+            for fn, a in lv["own"]:
+                c = self.canon(annots[fn]) if fn in annots else a
+                changed |= c != a
+                own.append((fn, c))
+            lv["own"] = own
+            if lv["base_args"]:
+                ob = [b for b in getattr(cl, "__orig_bases__", ()) if typing.get_origin(b) is not None
+                      and typing.get_origin(b) is not typing.Generic]
+                if ob:
+                    ba = [self.canon(x) for x in typing.get_args(ob[0])]
+                    changed |= ba != lv["base_args"]
+                    lv["base_args"] = ba
+        self.spec = spec
+        return changed
 
     # ---- canonical form of real typing objects (inverse of `src`)
     def canon(self, t):
@@ -341,7 +368,12 @@ class World:
                 c = "Union"
             else:
                 c = self.unname(getattr(origin, "__name__", None) or str(origin))
-            return ["app", c, [self.canon(x) for x in typing.get_args(t)]]
+            args = [self.canon(x) for x in typing.get_args(t)]
+            if c == "Union":
+                # typing compares and caches unions regardless of member order: which order an interned
+                # `Union[...]` object shows depends on what was built first in this process
+                args = sorted(args, key=json.dumps)
+            return ["app", c, args]
         if t is self.ns.get(self.names["T!cls"]):
             return ["lf", "T!cls"]
         if isinstance(t, type) or hasattr(t, "__name__"):
@@ -355,7 +387,7 @@ class World:
         ns = dict(self.ns)
         if extra:
             ns.update(extra)
-        return eval(src(a, self.names), ns)
+        return eval(compile(src(a, self.names), "<c17 ann>", "eval", flags=0, dont_inherit=True), ns)
 
     # ---- chain as the model sees it
     def chain_sx(self):
@@ -400,7 +432,7 @@ class World:
         code = deco + "class %s%s:\n%s\n" % (name, "(TypedDict)" if kind == "typeddict" else "",
                                                "\n".join(body) if body else "    pass")
         ns = dict(self.ns)
-        exec(compile(code, "<c17 copy %s>" % name, "exec"), ns)
+        exec(compile(code, "<c17 copy %s>" % name, "exec", flags=0, dont_inherit=True), ns)
         self.copies[key] = (ns[name], code, fields)
         return self.copies[key]
 
@@ -473,7 +505,7 @@ def occurrence(rng, v, allow_self=False, pep604_bad=False):
     if pep604_bad:
         table = [("pep604-generic-member", lambda: PU(APP("list", T), LF("None"))),
                  ("pep604-nested", lambda: APP("dict", LF("str"), PU(APP("list", T), LF("None")))),
-                 ("pep604-in", lambda: PU(APP("In", T), LF("None")))]
+                 ("pep604-dict-member", lambda: PU(APP("dict", LF("str"), T), LF("None")))]
     name, f = rng.choice(table)
     return name, f()
 
@@ -755,7 +787,10 @@ def _all_field_anns(spec):
 
 
 def shape_pep604(spec):
-    """some field contains a PEP 604 union with a member that is not closed (mentions a type variable or Self)"""
+    """some field contains a PEP 604 union with a member that is not closed (mentions a type variable or Self);
+    for a generic alias: additionally, the alias value itself is a PEP 604 union (closed or not)"""
+    if spec.get("kind") == "alias" and spec["levels"][0]["own"][0][1][0] == "pu":
+        return True
     for a in _all_field_anns(spec):
         for x in walk(a):
             if x[0] == "pu" and not all(is_closed(m) for m in x[1]):
@@ -843,6 +878,9 @@ def eval_world(chk, drv, spec, n_payloads, corr_fail, label=None):
     except Exception as e:  # noqa: BLE001  python itself rejects the class statement
         chk.note("world-rejected-by-python:" + type(e).__name__)
         return []
+    spec = W.spec
+    if W.normalised:
+        chk.note("annotations-normalised-by-typing")
     kind = spec["kind"]
     fails = []
     chain = W.chain_sx()
@@ -865,7 +903,7 @@ def eval_world(chk, drv, spec, n_payloads, corr_fail, label=None):
             full_args = [W.canon(x) for x in typing.get_args(tgt)]
             eff_args = full_args
             tg_sx = "(alias " + " ".join(ann_sx(a) for a in full_args) + ")"
-        case0 = {"spec": spec, "args": args0, "label": label}
+        case0 = {"spec": spec, "args": args0, "label": label, "target_kind": "bare" if args0 is None else "alias"}
         in_scope = drv.ask("SCOPE %s (%s)" % (chain, " ".join(ann_sx(a) for a in eff_args))) == "1" \
             and all(drv.ask("INSCOPE " + ann_sx(a)) == "1" for a in _all_field_anns(spec))
         if args0 is None and spec["levels"][0]["params"] and not eff_args:
@@ -886,9 +924,9 @@ def eval_world(chk, drv, spec, n_payloads, corr_fail, label=None):
         rm = drv.ask("MONO %s (%s) %s" % (chain, " ".join(ann_sx(a) for a in eff_args), ann_sx(self_spec)))
         mono_model = pairs_of(parse_sx(rm))
         mono_oracle = W.mono_fields(eff_args, self_to=self_spec)
-        if json.dumps(mono_model) != json.dumps([[n, a] for n, a in mono_oracle]) and json.dumps(mono_model) != json.dumps(mono_oracle):
-            if [list(x) for x in mono_model] != [list(x) for x in mono_oracle]:
-                corr_fail.append(("MONO", dict(case0, op="mono"), json.dumps(mono_oracle), rm))
+        chk.note("corr:MONO")
+        if [[n, a] for n, a in mono_model] != [[n, a] for n, a in mono_oracle]:
+            corr_fail.append(("MONO", dict(case0, op="mono"), json.dumps(mono_oracle), rm))
 
         # ---------- correspondence: GENMAP
         if is_generic_real(W, args0):
@@ -906,7 +944,8 @@ def eval_world(chk, drv, spec, n_payloads, corr_fail, label=None):
         # ---------- correspondence: RESOLVE (types bound into the real hook)
         convd = Converter(detailed_validation=True)
         rh = attempt(lambda: convd.get_structure_hook(tgt))
-        rm = drv.ask("STRUCTGEN %s %s" % (chain, tg_sx))
+        # (the real hook inspected is the detailed-validation one; for TypedDicts that template rewrites twice)
+        rm = drv.ask("%s %s %s" % ("STRUCTGENTD" if td else "STRUCTGEN", chain, tg_sx))
         refuses = drv.ask("REFUSES %s %s" % (chain, tg_sx)) == "1"
         chk.note("corr:RESOLVE")
         if rm == "refused":
@@ -925,13 +964,10 @@ def eval_world(chk, drv, spec, n_payloads, corr_fail, label=None):
                         want = json.dumps(W.canon(W.real(strip_nr(a))))
                         got = json.dumps(W.canon(real_t[k]))
                         if want != got:
-                            corr_fail.append(("RESOLVE", dict(case0, op="resolve"), "%s: %s" % (fn, got), rm))
+                            corr_fail.append(("RESOLVE", dict(case0, op="resolve"), "%s: real=%s model(normalised)=%s" % (fn, got, want), rm))
                             break
                 else:
                     chk.note("resolve-observable-unavailable")
-                if refuses and not any(o in ("optional", "union3", "optional-nested") for o in spec["occ"]):
-                    # the model says a type variable survives: the real hook cannot have been built
-                    corr_fail.append(("RESOLVE", dict(case0, op="resolve"), "hook created although model refuses", rm))
             elif not refuses:
                 # real refused, model did not
                 corr_fail.append(("RESOLVE", dict(case0, op="resolve"), "raised " + rh[1], rm))
@@ -1024,11 +1060,9 @@ def eval_world(chk, drv, spec, n_payloads, corr_fail, label=None):
                     t_unb = W.cls
                     tgu = "bare"
                 else:
-                    keep = rng.randrange(len(lv0["params"]))
-                    mixed = [TV(p) if (i == keep or p not in used) and p in used or i == keep else a
-                             for i, (p, a) in enumerate(zip(lv0["params"], args0))]
-                    if lv0["params"][keep] not in used:
-                        continue
+                    cand = [i for i, p in enumerate(lv0["params"]) if p in used]
+                    keep = rng.choice(cand)
+                    mixed = [TV(p) if i == keep else a for i, (p, a) in enumerate(zip(lv0["params"], args0))]
                     t_unb = W.target(mixed)
                     tgu = "(alias " + " ".join(ann_sx(a) for a in mixed) + ")"
                 for det in (True, False):
@@ -1039,7 +1073,7 @@ def eval_world(chk, drv, spec, n_payloads, corr_fail, label=None):
                     if r[0] == "ok":
                         fails.append(("C17 oracle: structuring %s with an unbound type parameter was not refused: payload=%r result=%r"
                                       % (t_unb, pl, r[1]), dict(case0, op="refusal", payload=repr(pl), detailed=det, in_scope=in_scope)))
-                    elif mref != "1":
+                    elif mref != "1" and in_scope:
                         corr_fail.append(("RESOLVE", dict(case0, op="resolve"), "refused", "model does not refuse " + tgu))
     for k in [k for k in linecache.cache if k.startswith("<cattrs generated")]:
         del linecache.cache[k]
@@ -1072,8 +1106,9 @@ def gen_ann(rng, depth, vars_):
     if r < 0.88:
         return APP("A", gen_ann(rng, depth - 1, vars_))
     a = gen_ann(rng, depth - 1, vars_)
-    if a[0] in ("tv", "self") or a == LF("None"):
-        # `T | None` is a typing.Optional, `Self | None` likewise: not a types.UnionType
+    if not (a[0] == "app" and a[1] in ("list", "dict", "tuple")) and not (a[0] == "lf" and a[1] in SCALARS):
+        # only classes and builtin generic aliases make a types.UnionType with `|`; `T | None`, `Self | None`,
+        # `List[T] | None`, `In[T] | None` are typing.Optional
         a = APP("list", a)
     return PU(a, LF("None"))
 
@@ -1123,7 +1158,8 @@ def dcw_round(chk, drv, n, corr_fail):
         if got != want:
             corr_fail.append(("DCW", case, got, rm))
         # the specification agrees wherever the model says the shape is in scope (C17_subst_partial, sampled)
-        if drv.ask("INSCOPE " + ann_sx(t_c)) == "1":
+        # (deep_copy_with proper is only ever called on parametrised annotations; a bare TypeVar is the templates' job)
+        if t_c[0] in ("app", "ann") and drv.ask("INSCOPE " + ann_sx(t_c)) == "1":
             sp = drv.ask("SUBST %s %s %s" % (pairs_sx(sorted(m.items())), "(lf \"G\")" if use_self else "self", ann_sx(t_c)))
             try:
                 spec_c = json.dumps(W.canon(W.real(ann_of(parse_sx(sp)))))
@@ -1144,15 +1180,16 @@ def alias_round(chk, drv, n, corr_fail, fails):
         arg = gen_closed_arg(rng)
         aname = "AL" + W.sfx
         try:
-            exec("type %s[X] = %s" % (aname, src(value, W.names)), W.ns)
+            exec(compile("type %s[X] = %s" % (aname, src(value, W.names)), "<c17 alias>", "exec", flags=0, dont_inherit=True), W.ns)
         except Exception:  # noqa: BLE001
             continue
         AL = W.ns[aname]
+        value = W.canon(AL.__value__)
         tgt = AL[W.real(arg)]
         mono = subst(value, {"X": arg})
-        bad = any(x[0] == "pu" and not all(is_closed(m) for m in x[1]) for x in walk(value))
         spec = {"shape": "alias", "levels": [{"name": "AL", "params": ["X"], "own": [("value", value)], "base_args": [],
                                               "defaults": {}, "generic_base": True}], "kind": "alias"}
+        bad = shape_pep604(spec)
         case = {"spec": spec, "op": "alias", "arg": arg}
         rm = drv.ask("ALIAS (\"X\") %s (%s)" % (ann_sx(value), ann_sx(arg)))
         chk.note("corr:ALIAS", "alias-occ:" + name)
@@ -1256,6 +1293,9 @@ def run(chk: framework.Check):
 
     # correspondence breaks: the oracle held on these inputs (or they are recorded findings, reported above)
     seen = set()
+    if os.environ.get("C17_DEBUG"):
+        for op, case, impl, model in corr_fail:
+            print("CORR", op, impl[:300], "|", model[:300], "|", json.dumps(case)[:600])
     for op, case, impl, model in corr_fail:
         if op in seen:
             continue
@@ -1265,8 +1305,9 @@ def run(chk: framework.Check):
             framework.FINDING_PREDICATES.get(k["signature"], lambda c: False)(f[1]) for k in chk.known)]
         if found:
             continue  # already reported with a failing input
+        # (wrapped so that no finding predicate — they look at case["spec"] — can swallow a broken correspondence)
         chk.violation(f"correspondence corr:C17:{op} broken (theorems C17_* no longer tied to the code): impl={impl[:300]} model={model[:300]}",
-                      case, found_input=False)
+                      {"corr": op, "corr_case": case}, found_input=False)
     chk.extra["rule"] = ("distinct (class chain, kind, syntax, argument tuple) worlds + distinct deep_copy_with inputs; every one "
                          "exercises substitution / mapping construction (non-leaf mechanisms)")
     chk.extra["formats"] = None
